@@ -9,7 +9,11 @@
 //                                          the code would index channels[] out of range; never read)
 // and the changes of the state no register shows directly, taken through TeakraVerifAccess
 //   "hid":[[id,value],...]  id 0..3 timer0/1 counter hi,lo; 16+32*ch+f DMA channel ch field f;
-//                           300,301 audio FIFO length; 400+i,416+i,432+i ICU vector low/high/ctx i.
+//                           300,301 audio FIFO length; 400+i,416+i,432+i ICU vector low/high/ctx i;
+//                           500.. the fields behind the registers themselves (timer, MIU, AHBM, DMA
+//                           enable/select, ICU request/enables, BTDMP config/flags) read directly from
+//                           the objects, so a bit-field slot that is shifted the same way in its setter
+//                           and getter (invisible to read-back) still shows
 // So "nothing else changed" is part of every line.  Events:
 //   New   fresh instance: iv = the (uninitialised) ICU vector arrays as found, nz/hnz = every non-zero
 //         read-back / hidden value
@@ -41,12 +45,28 @@ struct TeakraVerifAccess {
         for (int i = 0; i < 18; ++i) f[i] = v[i];
     }
     static uint32_t qlen(Teakra::Btdmp& b) { return (uint32_t)b.transmit_queue.size(); }
+    static void btdmp(Teakra::Btdmp& b, uint32_t* f) {
+        f[0] = b.transmit_clock_config; f[1] = b.transmit_enable; f[2] = b.transmit_empty; f[3] = b.transmit_full;
+    }
+    static void ahbm(Teakra::Ahbm& a, uint32_t* f) { // 3 x (burst, unit, dir, dmach), busy
+        for (int i = 0; i < 3; ++i) {
+            f[4 * i] = (u16)a.channels[i].burst_size; f[4 * i + 1] = (u16)a.channels[i].unit_size;
+            f[4 * i + 2] = (u16)a.channels[i].direction; f[4 * i + 3] = a.channels[i].dma_channel;
+        }
+        f[12] = a.busy_flag;
+    }
+    static void dmac(Teakra::Dma& d, uint32_t* f) { f[0] = d.enable_channel; f[1] = d.active_channel; }
+    static void icu(Teakra::ICU& c, uint32_t* f) {
+        f[0] = (uint32_t)c.request.to_ulong();
+        for (int i = 0; i < 3; ++i) f[1 + i] = (uint32_t)c.enabled[i].to_ulong();
+        f[4] = (uint32_t)c.vectored_enabled.to_ulong();
+    }
 };
 using TVA = TeakraVerifAccess;
 
 namespace {
 
-constexpr unsigned NOFF = 0x800, NHID = 448, OOB = 65536;
+constexpr unsigned NOFF = 0x800, NHID = 600, OOB = 65536;
 const unsigned CMD[3] = {0x0C2, 0x0C6, 0x0CA};
 
 struct MemGuard : Teakra::VerifMemObserver { // a DMA started with wild addresses must not leave the array
@@ -94,6 +114,19 @@ struct Rec {
         h[300] = TVA::qlen(I.btdmp[0]); h[301] = TVA::qlen(I.btdmp[1]);
         for (int i = 0; i < 16; ++i) { h[400 + i] = I.icu.vector_low[i]; h[416 + i] = I.icu.vector_high[i];
                                        h[432 + i] = I.icu.vector_context_switch[i]; }
+        for (int i = 0; i < 2; ++i) {
+            const Teakra::Timer& T = I.timer[i];
+            const uint32_t v[8] = {T.scale, (u16)T.count_mode, T.pause, T.update_mmio, T.start_low, T.start_high,
+                                   T.counter_low, T.counter_high};
+            for (int f = 0; f < 8; ++f) h[500 + 10 * i + f] = v[f];
+            TVA::btdmp(I.btdmp[i], &h[560 + 5 * i]);
+        }
+        const uint32_t m[9] = {I.miu.x_page, I.miu.y_page, I.miu.z_page, I.miu.page_mode, I.miu.mmio_base,
+                               I.miu.x_size[0], I.miu.x_size[1], I.miu.y_size[0], I.miu.y_size[1]};
+        for (int f = 0; f < 9; ++f) h[520 + f] = m[f];
+        TVA::ahbm(I.ahbm, &h[530]);
+        TVA::dmac(I.dma, &h[545]);
+        TVA::icu(I.icu, &h[550]);
     }
     static std::string pairs(const uint32_t* a, const uint32_t* b, unsigned n, bool nonzero) {
         std::string s = "[";
@@ -219,6 +252,12 @@ void sweep(Rec& r, vh::Rng& rng, unsigned part, unsigned parts, bool full) {
             r.W(p, 0x1DA, c % 4 == 3 ? 0x0007 : 0); r.W(p, 0x0E6, 1u << c);
             r.W(p, 0x1DE, 0x40C0, c); r.R('h', 0x200); r.W('g', 0x202, 0x8000); r.R('g', 0x1DE);
         }
+        // the two as-is behaviours that the strict forms of the property reject (see MC_Mmio_pinned*.cfg):
+        // bits of 0x1DA outside SRC_SPACE/DST_SPACE/DWM are one word shared by all eight channels ...
+        r.fresh();
+        r.W('h', 0x1BE, 0); r.W('h', 0x1DA, 0xFB00); r.W('h', 0x1BE, 1); r.R('h', 0x1DA); r.R('g', 0x1DA);
+        // ... and TIMER0_CFG := RES | CM=4 (watchdog mode 1) stops in ASSERT(count_mode < 4), raw word not stored
+        r.W('h', 0x20, 0x0410); r.R('h', 0x20);
     }
 }
 
